@@ -8,7 +8,7 @@
        Text.parse (recursive descent over the RFC 8259 grammar, nesting limit 10000) reads it:
        ScannerCorrect.v (loop = run of the automaton), ScannerGrammar.v (tokens), ScannerParse.v
        (values/elements/members by induction on the reader's fuel), for every byte string. *)
-From JP Require Import Bytes Json Text Strings Den ImplV5 ImplMerge Scan ScannerRef ScannerTie ScannerCorrect ScannerGrammar ScannerParse ApplySim Domain.
+From JP Require Import Bytes Json Text Strings Den ImplV5 ImplMerge Scan ScannerRef ScannerTie ScannerCorrect ScannerGrammar ScannerParse ScanFacts ApplySim Domain.
 From JP.gen Require Import ScannerGen.
 
 Theorem C16_scanner_is_reference : forall s c, step_fn (step s) s c = ref_step s c.
@@ -24,6 +24,15 @@ Print Assumptions C16_eof_is_reference.
 Theorem C16_valid_iff_grammar : forall bs, valid_gen bs = true <-> exists t, parse bs = Some t.
 Proof. exact valid_gen_iff_parse. Qed.
 Print Assumptions C16_valid_iff_grammar.
+
+(* Compact and Indent (loop models of indent.go over the translated scanner) accept exactly what Valid accepts *)
+Theorem C16_compact_accepts_iff_valid : forall esc bs, (exists out, compact_go esc bs = Some out) <-> valid_gen bs = true.
+Proof. exact compact_accepts_iff_valid. Qed.
+Print Assumptions C16_compact_accepts_iff_valid.
+
+Theorem C16_indent_accepts_iff_valid : forall ind bs, (exists out, indent_go ind bs = Some out) <-> valid_gen bs = true.
+Proof. exact indent_accepts_iff_valid. Qed.
+Print Assumptions C16_indent_accepts_iff_valid.
 
 (* the nesting limit of the translated scanner is the one the property names *)
 Theorem C16_nesting_limit : maxNestingDepth = 10000%Z /\ Text.max_depth = 10000%N.
